@@ -192,10 +192,45 @@ func (w *World) OnStuck(out *vs.Outcome) []string {
 		}
 	}
 	oracleEvals["C05_stuck_states_judged"]++
-	if lost == 0 {
-		return nil
+	var viol []string
+	if lost > 0 {
+		viol = append(viol, fmt.Sprintf("C05: the processor is stuck for good and %d of %d items of accepted requests (Consume returned nil) were never passed on, e.g. %s", lost, accepted, first))
 	}
-	return []string{fmt.Sprintf("C05: the processor is stuck for good and %d of %d items of accepted requests (Consume returned nil) were never passed on, e.g. %s", lost, accepted, first)}
+	// C18: one caller's context ended, and items submitted under a different, live
+	// context will never be exported (skipped)
+	var ended *CallerState
+	for _, c := range w.callers {
+		if c.Ctx != nil && vcontext.PeekErr(c.Ctx) != nil {
+			ended = c
+		}
+	}
+	if ended != nil {
+		for _, c := range w.callers {
+			if c.Ctx == ended.Ctx || (c.Ctx != nil && vcontext.PeekErr(c.Ctx) != nil) {
+				continue
+			}
+			skipped := 0
+			for _, rs := range c.Reqs {
+				if !rs.Started {
+					continue
+				}
+				if rs.Err != nil && consumererror.IsPermanent(rs.Err) && !errors.Is(rs.Err, errSink) {
+					continue // refused by the cardinality limit
+				}
+				for _, id := range rs.IDs {
+					if len(d[id]) == 0 {
+						skipped++
+					}
+				}
+			}
+			if skipped > 0 {
+				oracleEvals["C18_stuck_states_judged"]++
+				viol = append(viol, fmt.Sprintf("C18: after the context of caller %s ended the processor is stuck for good and %d items submitted by caller %s (context live) are never exported", ended.Spec.Label, skipped, c.Spec.Label))
+				break
+			}
+		}
+	}
+	return viol
 }
 
 // Check is the end-of-execution oracle.
